@@ -93,3 +93,33 @@ Qed.
 Print Assumptions c12_translated_generated_instantiate_options.
 Print Assumptions c12_translated_generated_instantiate_call.
 Print Assumptions c12_translated_generated_instantiate2_call.
+
+(* ------------------------------------------------------------------------------------------ *)
+(* The generated exec / query / sudo / migrate proxy METHODS (templates emit_mt_method_definition), for every contract,
+   every method and all arguments (the argument list is one symbolic value), composed with the translated run-time
+   library: each proxy call is exactly one raw chain operation. *)
+Theorem c12_translated_generated_exec_path : forall ok ty txt payload addr inner args fs sender,
+  exists p0 p1,
+    calls (PM ok ty txt payload) 3 "ProxyT::exec_method" [proxy_val addr (app_val inner); args] (CVal p0) /\
+    pm_funds_chain ok ty txt payload p0 fs p1 /\
+    calls (PM ok ty txt payload) 3 "ExecProxy::call" [p1; sender]
+      (CVal (answered ok ty txt payload via_downcast "extern::execute_contract"
+               [inner; sender; addr; msg_of "ExecMsg::of" args; last fs (VArr [])])).
+Proof. exact generated_exec_path. Qed.
+
+Theorem c12_translated_generated_query_sudo_migrate : forall ok ty txt payload addr inner app args sender code,
+  calls (PM ok ty txt payload) 3 "ProxyT::query_method" [proxy_val addr app; args]
+    (CVal (answered ok ty txt payload via_into "extern::query_wasm_smart" [app; addr; msg_of "QueryMsg::of" args])) /\
+  calls (PM ok ty txt payload) 3 "ProxyT::sudo_method" [proxy_val addr (app_val inner); args]
+    (CVal (answered ok ty txt payload via_downcast "extern::wasm_sudo" [inner; addr; msg_of "SudoMsg::of" args])) /\
+  exists p0,
+    calls (PM ok ty txt payload) 3 "ProxyT::migrate_method" [proxy_val addr (app_val inner); args] (CVal p0) /\
+    calls (PM ok ty txt payload) 3 "MigrateProxy::call" [p0; sender; code]
+      (CVal (answered ok ty txt payload via_downcast "extern::migrate_contract"
+               [inner; sender; addr; msg_of "MigrateMsg::new" args; code])).
+Proof.
+  intros. split; [apply generated_query_method|]. split; [apply generated_sudo_method | apply generated_migrate_path].
+Qed.
+
+Print Assumptions c12_translated_generated_exec_path.
+Print Assumptions c12_translated_generated_query_sudo_migrate.
